@@ -194,6 +194,7 @@ func runC09(r *Result, thorough bool) {
 	for ri := 0; ri < runs; ri++ {
 		n := 3 + rng.Intn(3)
 		cl := newCluster(rng, n, 10000, nil)
+		cl.spellJoins = true
 		strangerP := newParticipants(rng, 2)
 		strangers := map[string]int{strangerP[0].hex: 900, strangerP[1].hex: 901}
 		lastAnchor := map[int]int{}
@@ -307,6 +308,7 @@ func runC09(r *Result, thorough bool) {
 			sigOracle(r, cl, a, lastAnchor)
 		}
 		r.Inc("runs", 1)
+		r.Inc("join_requests_with_a_lower_case_key", cl.joinsSpelled)
 		cl.close()
 	}
 	if len(c.Ops) > 0 {
